@@ -49,6 +49,8 @@ type n3Input struct {
 	Class   string    `json:"class"`
 	Prefix  []wireMsg `json:"state_prefix"`
 	Seq     []wireMsg `json:"messages"`
+	DwellMs int       `json:"dwell_ms_with_the_peer_connected,omitempty"` // time for the node's gossip routines to act on the stored peer state
+	Mirror  bool      `json:"honest_prevote_arrives_during_dwell,omitempty"`
 	NodeH   int64     `json:"node_height"`
 	NodeR   int32     `json:"node_round"`
 	NodeS   string    `json:"node_step"`
@@ -63,6 +65,7 @@ type liveCtx struct {
 	PrevBID tmproto.BlockID  // block H-1 (zero at height 1)
 	Part    *tmproto.Part    // a genuine part (of the proposal or of block H-1)
 	NVals   int
+	LCR     int32 // round of the commit of height H-1 as the node holds it (-1 if none)
 }
 
 type gen struct {
@@ -462,8 +465,215 @@ func (g *gen) previousHeight(in *n3Input) {
 	}
 }
 
+// ---- stateful sequences -------------------------------------------------------
+// Every message here passes ValidateBasic and carries a CONSISTENT bit array (as many
+// elements as its size demands); what is wrong is the size itself, compared with the
+// validator set / the real part count.  The reactor stores these in the peer state;
+// the damage, if any, is done later by gossipDataRoutine / gossipVotesRoutine /
+// queryMaj23Routine, which run without a recover.  Each sequence is therefore followed
+// by a dwell with the peer still connected.
+
+// sizedBits: a consistent bit array of exactly n bits; content all-zero, all-one or random.
+func (g *gen) sizedBits(n int64) *tmbits.BitArray {
+	if n < 0 {
+		n = 0
+	}
+	e := make([]uint64, (n+63)/64)
+	switch g.r.Intn(3) {
+	case 0:
+		for i := range e {
+			e[i] = ^uint64(0)
+		}
+		if r := uint(n % 64); r != 0 && len(e) > 0 {
+			e[len(e)-1] = (uint64(1) << r) - 1 // no bits beyond the size
+		}
+	case 1:
+		for i := range e {
+			e[i] = g.r.Uint64()
+		}
+		if r := uint(n % 64); r != 0 && len(e) > 0 {
+			e[len(e)-1] &= (uint64(1) << r) - 1
+		}
+	}
+	return &tmbits.BitArray{Bits: n, Elems: e}
+}
+
+// wrongSize: sizes that differ from the right one n.
+func (g *gen) wrongSize(n int64, max int64) int64 {
+	v := pick64(g.r, n-1, n+1, n+1, n+62, n+63, n+64, 63, 64, 65, 65, 128, 129, max, max-1, 2*n, 0)
+	if v > max {
+		v = max
+	}
+	if v < 0 {
+		v = 0
+	}
+	return v
+}
+
+func junkSig(r *rand.Rand) []byte {
+	b := make([]byte, 64)
+	r.Read(b)
+	return b
+}
+
+func (g *gen) cleanProposal(h int64, r, pol int32) wireMsg {
+	rb := randBlockID(g.r)
+	p := tmproto.Proposal{Type: tmproto.ProposalType, Height: h, Round: r, PolRound: pol, BlockID: rb.ToProto(), Timestamp: tmtime.Now(), Signature: junkSig(g.r)}
+	return wm(chData, fmt.Sprintf("Proposal h=%d r=%d pol=%d total=1 sig=junk (ValidateBasic-clean)", h, r, pol), &tmcons.Proposal{Proposal: p})
+}
+
+func (g *gen) cleanPOL(h int64, pol int32, n int64) wireMsg {
+	ba := g.sizedBits(n)
+	return wm(chData, fmt.Sprintf("ProposalPOL h=%d pol=%d bits=%d elems=%d (consistent, validators=%d)", h, pol, ba.Bits, len(ba.Elems), g.lc.NVals),
+		&tmcons.ProposalPOL{Height: h, ProposalPolRound: pol, ProposalPol: *ba})
+}
+
+func (g *gen) cleanVSB(h int64, r int32, t tmproto.SignedMsgType, bid tmproto.BlockID, n int64) wireMsg {
+	ba := g.sizedBits(n)
+	return wm(chVoteBits, fmt.Sprintf("VoteSetBits h=%d r=%d type=%d bits=%d elems=%d (consistent, validators=%d)", h, r, t, ba.Bits, len(ba.Elems), g.lc.NVals),
+		&tmcons.VoteSetBits{Height: h, Round: r, Type: t, BlockID: bid, Votes: *ba})
+}
+
+func (g *gen) cleanMaj23(h int64, r int32, t tmproto.SignedMsgType, bid tmproto.BlockID) wireMsg {
+	return wm(chState, fmt.Sprintf("VoteSetMaj23 h=%d r=%d type=%d (ValidateBasic-clean)", h, r, t), &tmcons.VoteSetMaj23{Height: h, Round: r, Type: t, BlockID: bid})
+}
+
+func (g *gen) cleanHasVote(h int64, r int32, t tmproto.SignedMsgType, idx int32) wireMsg {
+	return wm(chState, fmt.Sprintf("HasVote h=%d r=%d type=%d index=%d (validators=%d)", h, r, t, idx, g.lc.NVals), &tmcons.HasVote{Height: h, Round: r, Type: t, Index: idx})
+}
+
+func (g *gen) cleanNVB(h int64, r int32, psh tmproto.PartSetHeader, commit bool) wireMsg {
+	ba := g.sizedBits(int64(psh.Total))
+	return wm(chState, fmt.Sprintf("NewValidBlock h=%d r=%d total=%d bits=%d elems=%d (consistent) commit=%v", h, r, psh.Total, ba.Bits, len(ba.Elems), commit),
+		&tmcons.NewValidBlock{Height: h, Round: r, BlockPartSetHeader: psh, BlockParts: ba, IsCommit: commit})
+}
+
+// a vote of the harness' validator as seen by VoteMessage.ValidateBasic (junk signature): makes the
+// reactor create the peer's vote bit arrays (EnsureVoteBitArrays) before anything else
+func (g *gen) arraysVote(h int64, r int32, t tmproto.SignedMsgType) wireMsg {
+	rb := randBlockID(g.r)
+	v := tmproto.Vote{Type: t, Height: h, Round: r, BlockID: rb.ToProto(), Timestamp: tmtime.Now(), ValidatorAddress: g.n.hostAddr, ValidatorIndex: g.n.hostValIx, Signature: junkSig(g.r)}
+	return wm(chVote, fmt.Sprintf("Vote type=%d h=%d r=%d idx=%d sig=junk (ValidateBasic-clean)", t, h, r, v.ValidatorIndex), &tmcons.Vote{Vote: &v})
+}
+
+func (g *gen) voteType() tmproto.SignedMsgType {
+	if g.r.Intn(2) == 0 {
+		return tmproto.PrevoteType
+	}
+	return tmproto.PrecommitType
+}
+
+func (g *gen) statefulInput(in *n3Input) {
+	H, R, n := g.lc.H, g.lc.R, int64(g.lc.NVals)
+	in.State = "stateful"
+	in.DwellMs = 60
+	in.Mirror = g.r.Intn(3) == 0
+	step := uint32(pick64(g.r, 1, 2, 3, 4, 5, 6, 7, 8))
+	prev := H > 1 && g.r.Intn(4) == 0 // (e): the peer says it is at the node's previous height
+	realBID := g.lc.PrevBID
+	if g.lc.PropBID != nil {
+		realBID = *g.lc.PropBID
+	}
+	switch k := g.r.Intn(10); {
+	case k < 3: // (a) proposal with a POL round, then the POL bit array
+		in.Class = "stateful:a-proposalPOL-wrong-size"
+		ph, pr := H, R+1+int32(g.r.Intn(3))
+		if prev {
+			ph, pr = H-1, 1+int32(g.r.Intn(3))
+			in.Class += "@previous-height"
+		}
+		pol := int32(0)
+		if !prev && R > 0 {
+			pol = int32(g.r.Intn(int(R) + 1))
+		}
+		in.Prefix = []wireMsg{g.mNRS(ph, pr, step)}
+		in.Seq = []wireMsg{g.cleanProposal(ph, pr, pol), g.cleanPOL(ph, pol, g.wrongSize(n, 10000))}
+		if g.r.Intn(3) == 0 {
+			in.Seq = append(in.Seq, g.cleanPOL(ph, pol, g.wrongSize(n, 10000)))
+		}
+	case k < 5: // (b) part-set headers / BlockParts of wrong sizes
+		in.Class = "stateful:b-newValidBlock-wrong-size"
+		ph, pr := H, R
+		psh := realBID.PartSetHeader
+		if prev {
+			ph, pr = H-1, g.lc.LCR
+			if pr < 0 {
+				pr = 0
+			}
+			psh = g.lc.PrevBID.PartSetHeader
+			in.Class += "@previous-height"
+		}
+		real := int64(psh.Total)
+		psh.Total = uint32(g.wrongSize(real, 1601))
+		if psh.Total == 0 {
+			psh.Total = uint32(real + 1)
+		}
+		if len(psh.Hash) != 32 {
+			psh.Hash = make([]byte, 32)
+			g.r.Read(psh.Hash)
+		}
+		in.Prefix = []wireMsg{g.mNRS(ph, pr, step)}
+		in.Seq = []wireMsg{g.cleanNVB(ph, pr, psh, g.r.Intn(2) == 0)}
+		for i := 0; i < g.r.Intn(3); i++ {
+			part := g.part()
+			part.Index = uint32(pick64(g.r, 0, 1, real, real+1, int64(psh.Total)-1, int64(psh.Total), 64, 65))
+			in.Seq = append(in.Seq, wm(chData, fmt.Sprintf("BlockPart h=%d r=%d index=%d bytes=%d", ph, pr, part.Index, len(part.Bytes)), &tmcons.BlockPart{Height: ph, Round: pr, Part: part}))
+		}
+		if g.r.Intn(2) == 0 { // and then the node's real header, sized right, so that the gossip compares them
+			in.Seq = append(in.Seq, g.cleanNVB(ph, pr, tmproto.PartSetHeader{Total: uint32(real + 64), Hash: psh.Hash}, true))
+		}
+	case k < 8: // (c) VoteSetMaj23, then VoteSetBits of wrong sizes, for the current and the last height
+		in.Class = "stateful:c-maj23+voteSetBits-wrong-size"
+		t := g.voteType()
+		ph, pr, bid := H, R, realBID
+		in.Prefix = []wireMsg{g.mNRS(H, R, step)}
+		if prev || g.r.Intn(3) == 0 {
+			// the node's last height: its LastCommit / the peer's catch-up arrays
+			ph, pr, bid, t = H-1, g.lc.LCR, g.lc.PrevBID, tmproto.PrecommitType
+			if pr < 0 || ph < 1 {
+				ph, pr, bid, t = H, R, realBID, g.voteType()
+			} else {
+				in.Class += "@last-height"
+			}
+			if prev {
+				in.Prefix = []wireMsg{g.mNRS(H-1, pr, step)}
+			}
+		}
+		in.Seq = []wireMsg{g.arraysVote(ph, pr, t), g.cleanMaj23(ph, pr, t, bid), g.cleanVSB(ph, pr, t, bid, g.wrongSize(n, 10000))}
+		if g.r.Intn(2) == 0 {
+			in.Seq = append(in.Seq, g.cleanVSB(ph, pr, t, randBlockIDProto(g.r), g.wrongSize(n, 10000)))
+		}
+	default: // (d) HasVote with indexes beyond the validator count, then votes arrive
+		in.Class = "stateful:d-hasVote-index-beyond-validators"
+		ph, pr := H, R
+		if prev {
+			ph, pr = H-1, g.lc.LCR
+			if pr < 0 {
+				pr = 0
+			}
+			in.Class += "@previous-height"
+		}
+		in.Prefix = []wireMsg{g.mNRS(ph, pr, step)}
+		t := g.voteType()
+		in.Seq = []wireMsg{g.arraysVote(ph, pr, t)}
+		for i := 0; i < 1+g.r.Intn(3); i++ {
+			in.Seq = append(in.Seq, g.cleanHasVote(ph, pr, g.voteType(), int32(pick64(g.r, n, n+1, 63, 64, 65, 127, 128, 9999, 10000, math.MaxInt32))))
+		}
+		in.Mirror = true
+	}
+}
+
+func randBlockIDProto(r *rand.Rand) tmproto.BlockID {
+	b := randBlockID(r)
+	return b.ToProto()
+}
+
 func (g *gen) consensusInput(in *n3Input) {
 	H, R := g.peerH, g.peerR
+	if g.r.Intn(10) < 3 {
+		g.statefulInput(in)
+		return
+	}
 	if (g.focusPrev && g.r.Intn(2) == 0) || g.r.Intn(8) == 0 {
 		g.previousHeight(in)
 		return
@@ -917,7 +1127,7 @@ func (g *gen) makeInput1(batch, idx int) *n3Input {
 	case "pex":
 		g.pexInput(in)
 	}
-	if g.r.Intn(4) == 0 {
+	if g.r.Intn(4) == 0 && in.State != "stateful" {
 		g.byteLevel(in)
 	}
 	for i := range in.Prefix {
